@@ -14,6 +14,15 @@ BASELINE_OFF = ('cd /repo && env -u ELECTRUMX_VERIF /venv/bin/python -m pytest -
 _IDX_NOTE = ('Trusted: the fake plyvel stand-in (bound to real LevelDB by the conformance run), '
              'the reference indexer; only the default schedule is used here (schedules: C06/C07).')
 CHECKS = {
+    'C03': ('exploration',
+            'exhaustive bounded enumeration of fork histories on the real block processor, '
+            'differential against a fresh real server',
+            'Base tails x fork depth 1..3 x branch recipes (replay / conflict with orphaned txs) x '
+            'flush schedules x reorg limits x event shapes (single, back-to-back, equal/shorter then '
+            'extension, forced reorgs unchanged/extended/silently switched, fork discovered at every '
+            'scheduler step of a batch); every observable incl. header proofs and the raw tables '
+            'compared with the reference indexer and with a fresh server that only saw the final chain.',
+            _IDX_NOTE, '3/C03'),
     'C01': ('exploration',
             'exhaustive bounded enumeration of chains x flush schedules on the real sync pipeline',
             'Every recipe sequence up to the length bound x every per-block flush directive (none, '
